@@ -118,22 +118,40 @@ package dig
 // ---------------------------------------------------------------------------
 // the resolution knot: frame shared by BuildList / Build / Call
 
-//@ locset knot = constructorNode.called, decoratorNode.state, map(Scope.values), map(Scope.groups), map(Scope.decoratedGroups), elems(reflect.Value), @events
+//@ locset knot = constructorNode.called, decoratorNode.state, map(Scope.values), map(Scope.groups), map(Scope.decoratedGroups), elems(reflect.Value), @events, $nset, $setDst, $setSrc
+
+// What every function of the knot guarantees about the rest of the world
+// (two-state): constructors stay called, decorators that are on the stack stay
+// on the stack, the event logs only grow.
+//@ pure func knotMono() Bool =
+//@   (forall m *constructorNode :: old(m.called) ==> m.called)
+//@   && (forall d *decoratorNode :: old(d.state) == decoratorOnStack ==> d.state == decoratorOnStack)
+//@   && $nrun >= old($nrun) && $ev >= old($ev) && $ncb >= old($ncb) && $nset >= old($nset)
+
+// interface-level contract of param.Build (every implementation states and proves the same clauses)
+//@ func (p param) Build(c) (v, err)
+//@   trusted
+//@   requires isScope(c) && p != nil && !is(p, paramList)
+//@   modifies @knot
+//@   allocates
+//@   maypanic
+//@   ensures knotMono()
+//@   onpanic knotMono()
 
 //@ func (pl paramList) BuildList(c) (args, err)
-//@   trusted
-//@   requires c != nil
+//@   requires isScope(c) && (forall j int :: 0 <= j && j < len(pl.Params) ==> pl.Params[j] != nil && !is(pl.Params[j], paramList))
 //@   modifies @knot
 //@   allocates
 //@   maypanic
 //@   ensures[C01:args-len] err == nil ==> len(args) == len(pl.Params)
 //@   ensures err == nil ==> fresh(args) || len(args) == 0
-//@   ensures $nrun >= old($nrun) && $ev >= old($ev) && $ncb >= old($ncb)
-//@   ensures forall m *constructorNode :: old(m.called) ==> m.called
-//@   ensures forall d *decoratorNode :: old(d.state) == decoratorOnStack ==> d.state == decoratorOnStack
-//@   onpanic $nrun >= old($nrun) && $ev >= old($ev) && $ncb >= old($ncb)
-//@   onpanic forall m *constructorNode :: old(m.called) ==> m.called
-//@   onpanic forall d *decoratorNode :: old(d.state) == decoratorOnStack ==> d.state == decoratorOnStack
+//@   ensures[C03:knot-mono] knotMono()
+//@   onpanic[C03:knot-mono-panic] knotMono()
+//@   loop range pl.Params #1: invariant[C01:args-so-far] len(args) == len(pl.Params) && fresh(args)
+//@   loop range pl.Params #1: invariant[C03:knot-mono-loop] knotMono()
+//@   loop range pl.Params #1: modifies elems(reflect.Value)
+//@   site call (dig.param).Build #1: assert[C08:params-built-in-given-scope] $arg0 == c
+//@   site call (dig.param).Build #1: assert[C01:params-built-in-order] $recv == pl.Params[$i]
 
 //@ func shallowCheckDependencies(c, pl) (err)
 //@   trusted
@@ -148,6 +166,8 @@ package dig
 //@   allocates
 
 //@ func (n *constructorNode) Call(c) (err)
+//@   ensures[C03:knot-mono] knotMono()
+//@   onpanic[C03:knot-mono-panic] knotMono()
 //@   requires n != nil && c != nil && is(c, ptr(Scope)) && as(c, ptr(Scope)) != nil
 //@   modifies @knot
 //@   allocates
@@ -186,6 +206,8 @@ package dig
 //@   site call (dig.resultList).ExtractList #1: assert[C01:extracts-own-results] $recv == n.resultList && $arg2 == ret(invokerFn_1, 0)
 
 //@ func (n *decoratorNode) Call(s) (err)
+//@   ensures[C03:knot-mono] knotMono()
+//@   onpanic[C03:knot-mono-panic] knotMono()
 //@   requires n != nil && s != nil && is(s, ptr(Scope)) && as(s, ptr(Scope)) != nil
 //@   requires[C02:not-on-stack] n.state != decoratorOnStack
 //@   modifies @knot
@@ -307,6 +329,8 @@ package dig
 //@ pure func decApplicable(s *Scope, k key) Bool = k in s.decorators && s.decorators[k] != nil && s.decorators[k].state != decoratorOnStack
 
 //@ func (ps paramSingle) buildWithDecorators(c) (v, found, err)
+//@   ensures[C03:knot-mono] knotMono()
+//@   onpanic[C03:knot-mono-panic] knotMono()
 //@   requires isScope(c)
 //@   modifies @knot
 //@   allocates
@@ -340,6 +364,8 @@ package dig
 //@        && unchanged(errMissingDependencies.Func, errMissingDependencies.Reason, cell(Error))
 
 //@ func (ps paramSingle) Build(c) (v, err)
+//@   ensures[C03:knot-mono] knotMono()
+//@   onpanic[C03:knot-mono-panic] knotMono()
 //@   requires isScope(c) && ps.Type != nil
 //@   modifies @knot
 //@   allocates
@@ -385,3 +411,38 @@ package dig
 //@   ensures fresh(r) || len(r) == 0
 //@   loop range nodes #1: invariant[C09:providers-copied] forall j int :: 0 <= j && j < $i ==> providers[j] == s.providers[k][j]
 //@   loop range nodes #1: invariant len(providers) == len(s.providers[k]) && fresh(providers) && nodes == s.providers[k]
+
+//@ opaque func isSoftGroup(f paramObjectField) Bool = is(f.Param, paramGroupedSlice) && as(f.Param, paramGroupedSlice).Soft
+//@ pure func okField(f paramObjectField, t RType) Bool = f.Param != nil && !is(f.Param, paramList) && 0 <= f.FieldIndex && f.FieldIndex < numField(t)
+
+//@ func (pof paramObjectField) Build(c) (v, err)
+//@   requires isScope(c) && pof.Param != nil && !is(pof.Param, paramList)
+//@   modifies @knot
+//@   allocates
+//@   maypanic
+//@   ensures[C03:knot-mono] knotMono()
+//@   onpanic[C03:knot-mono-panic] knotMono()
+//@   ensures[C15:field-value-is-its-params-value] v == ret(Build_1, 0) && err == ret(Build_1, 1)
+//@   site call (dig.param).Build #1: assert[C15:field-builds-its-own-param] $recv == pof.Param && $arg0 == c
+
+//@ func (po paramObject) Build(c) (v, err)
+//@   requires isScope(c) && po.Type != nil && kind(po.Type) == kStruct()
+//@   requires forall j int :: 0 <= j && j < len(po.Fields) ==> okField(po.Fields[j], po.Type)
+//@   modifies @knot
+//@   allocates
+//@   maypanic
+//@   ensures[C03:knot-mono] knotMono()
+//@   onpanic[C03:knot-mono-panic] knotMono()
+//@   ensures[C15:object-is-a-new-struct-of-the-declared-type] valid(v) && typ(v) == po.Type
+//@   loop range po.Fields #1: invariant[C11:hard-fields-first] forall j int :: 0 <= j && j < len(fields) ==> !isSoftGroup(fields[j]) && okField(fields[j], po.Type)
+//@   loop range po.Fields #1: invariant[C11:soft-fields-queued] forall j int :: 0 <= j && j < len(softGroupsQueue) ==> isSoftGroup(softGroupsQueue[j]) && okField(softGroupsQueue[j], po.Type)
+//@   loop range po.Fields #1: invariant[C15:every-field-is-queued-once] len(fields) + len(softGroupsQueue) == $i
+//@   loop range po.Fields #1: invariant (cap(fields) == 0 || fresh(fields)) && (cap(softGroupsQueue) == 0 || fresh(softGroupsQueue))
+//@   loop range po.Fields #1: invariant cap(fields) == 0 || cap(softGroupsQueue) == 0 || fields.arr != softGroupsQueue.arr
+//@   loop range fields #1: invariant[C11:soft-groups-built-last] forall a int, b int :: 0 <= a && a < b && b < len(fields) && isSoftGroup(fields[a]) ==> isSoftGroup(fields[b])
+//@   loop range fields #1: invariant[C15:all-fields-built] len(fields) == len(po.Fields) && (forall j int :: 0 <= j && j < len(fields) ==> okField(fields[j], po.Type))
+//@   loop range fields #1: invariant[C03:knot-mono-loop] knotMono()
+//@   loop range fields #1: invariant valid(dest) && typ(dest) == po.Type && canSet(dest)
+//@   site call (dig.paramObjectField).Build #1: assert[C08:fields-built-in-given-scope] $arg0 == c
+//@   site call (dig.paramObjectField).Build #1: assert[C15:fields-built-in-queue-order] $recv == fields[$i]
+//@   site call (reflect.Value).Set #1: assert[C15:field-receives-its-own-value] $recv == fieldV(dest, fields[$i].FieldIndex) && $arg0 == ret(Build_1, 0)
